@@ -45,8 +45,13 @@ var icPairs = map[string]*icPair{
 	// a service sending to itself: source and destination records are one and the same
 	"p4": {name: "p4", from: fix.FullID(fix.ChainA, fix.Svc1), to: fix.FullID(fix.ChainA, fix.Svc1), srcChain: fix.ChainA, dstChain: fix.ChainA},
 	"p5": {name: "p5", from: fix.FullID(fix.ChainA, "0xB2dD6977169c5067d3729E3deB9a82c3e7502BF4"), to: fix.FullID(fix.ChainB, fix.Svc2), srcChain: fix.ChainA, dstChain: fix.ChainB},
+	// source service registered as unordered (only in worlds built by newICInstU): the
+	// destination is ordered, so requests and receipts of the pair are still index-checked
+	"p6": {name: "p6", from: fix.FullID(fix.ChainA, icSvcU), to: fix.FullID(fix.ChainB, fix.Svc2), srcChain: fix.ChainA, dstChain: fix.ChainB},
 	"p3": {name: "p3", from: fix.FullID(fix.ChainB, fix.Svc2), to: fix.FullID(fix.ChainA, fix.Svc1), srcChain: fix.ChainB, dstChain: fix.ChainA, srcKey: 1},
 }
+
+const icSvcU = "0xB2dD6977169c5067d3729E3deB9a82c3e7502BF6"
 
 type icTx struct {
 	status int
@@ -74,6 +79,8 @@ type icInst struct {
 	opt    fix.Options
 	last   *icStep
 	failed bool
+	// unordered: the world also has service A:sU, registered with ordered = false
+	unordered bool
 }
 
 // icStep keeps what the oracles need about the most recent block.
@@ -98,6 +105,18 @@ type icExpect struct {
 
 func newICInst(opt fix.Options) *icInst {
 	return &icInst{w: fix.BaseWorld(opt), m: newICModel(), opt: opt}
+}
+
+// newICInstU: base world plus the approved service A:sU registered as unordered.
+func newICInstU(opt fix.Options) *icInst {
+	in := newICInst(opt)
+	w := in.w
+	res := w.Must(w.Block(w.InvokeTx(fix.KA, constant.ServiceMgrContractAddr, "RegisterService",
+		pb.String(fix.ChainA), pb.String(icSvcU), pb.String("name-unordered"), pb.String("CallContract"),
+		pb.String("intro"), pb.Uint64(0), pb.String(""), pb.String("details"), pb.String("reason"))))
+	w.Approve(fix.ProposalID(res.Receipts[0]))
+	in.unordered = true
+	return in
 }
 
 func icID(p *icPair, idx uint64) string { return fmt.Sprintf("%s-%s-%d", p.from, p.to, idx) }
@@ -307,7 +326,7 @@ func (in *icInst) check(c *mc.Ctx, o icOracle, prop string, path []string) {
 	if st == nil {
 		return
 	}
-	rep := map[string]interface{}{"engine": strings.ToLower(prop) + ".icmc", "ops": path, "audit": in.opt.Audit}
+	rep := map[string]interface{}{"engine": strings.ToLower(prop) + ".icmc", "ops": path, "audit": in.opt.Audit, "unordered": in.unordered}
 	bad := func(sig, format string, a ...interface{}) {
 		c.Report(prop+"|"+sig, fmt.Sprintf(format, a...)+fmt.Sprintf(" [block %d = %v] after %s", st.height, st.descs, joinOps(path)), rep)
 	}
@@ -569,7 +588,12 @@ var forkOK = false
 
 func runIC(c *mc.Ctx, prop string, o icOracle, opt fix.Options, name string, alphabet []string, depth int) {
 	b := &mc.BFS{C: c, Name: name, MaxDepth: depth,
-		Init:    func() mc.Instance { return newICInst(opt) },
+		Init: func() mc.Instance {
+			if strings.HasSuffix(name, "-unordered-source") {
+				return newICInstU(opt)
+			}
+			return newICInst(opt)
+		},
 		Enabled: func(x mc.Instance, d int) []string { return alphabet },
 		Apply: func(x mc.Instance, op string, path []string) (bool, bool) {
 			in := x.(*icInst)
@@ -590,7 +614,7 @@ func runIC(c *mc.Ctx, prop string, o icOracle, opt fix.Options, name string, alp
 	if forkOK {
 		b.Fork = func(x mc.Instance) mc.Instance {
 			in := x.(*icInst)
-			return &icInst{w: in.w.Fork(), m: in.m.clone(), opt: in.opt}
+			return &icInst{w: in.w.Fork(), m: in.m.clone(), opt: in.opt, unordered: in.unordered}
 		}
 	}
 	b.Run()
@@ -600,6 +624,10 @@ func icReplayer(prop string, o icOracle) func(c *mc.Ctx, r map[string]interface{
 	return func(c *mc.Ctx, r map[string]interface{}) {
 		audit, _ := r["audit"].(bool)
 		in := newICInst(fix.Options{Audit: audit})
+		if u, _ := r["unordered"].(bool); u {
+			in.w.R.Close()
+			in = newICInstU(fix.Options{Audit: audit})
+		}
 		path := strList(r["ops"])
 		for i, op := range path {
 			if op == "reopen" {
